@@ -519,7 +519,8 @@ class PacketTransmitter(Elaboratable):
         # If we need to retry sending our packets, we'll need to reset our pending packet count.
         # Otherwise, we increment and decrement our "to send" counts normally.
         with m.If(self.retry_required):
-            m.d.ss += packets_to_send.eq(packets_awaiting_ack)
+            # (A header enqueued in this very cycle is not yet counted in ``packets_awaiting_ack``.)
+            m.d.ss += packets_to_send.eq(packets_awaiting_ack + enqueue_send)
         with m.Elif(enqueue_send & ~dequeue_send):
             m.d.ss += packets_to_send.eq(packets_to_send + 1)
         with m.Elif(dequeue_send & ~enqueue_send):
@@ -615,7 +616,7 @@ class PacketTransmitter(Elaboratable):
                 # If we have packets to send, pass them to our transmitter.
                 with m.If(self.bringup_complete & (packets_to_send != 0)):
 
-                    with m.If(~retry_pending):
+                    with m.If(~retry_pending & ~self.retry_required):
                         # Wait until the packet is sent.
                         m.next = "WAIT_FOR_SEND"
 
@@ -651,9 +652,21 @@ class PacketTransmitter(Elaboratable):
                     m.d.comb += dequeue_send.eq(1)
 
                     # If this was the last packet to retransmit, we're done handling this LBAD.
-                    with m.If(packets_to_send == 1):
+                    with m.If((packets_to_send == 1) & ~self.retry_required):
                         m.d.ss += retry_pending.eq(0)
                         m.next = "DISPATCH_PACKET"
+
+                # If we receive another LBAD while retransmitting, our read pointer and counter have just been
+                # set up for a new round of retransmissions; a packet still in flight must not advance them.
+                with m.If(self.retry_required):
+                    m.next = "FLUSH_PACKET"
+
+
+            # FLUSH_PACKET -- wait for a packet that was in flight when a further LBAD arrived to leave our
+            # transmitter, without touching our (freshly reset) read pointer and counters; then start over.
+            with m.State("FLUSH_PACKET"):
+                with m.If(~packet_tx.source.valid | packet_tx.done):
+                    m.next = "DISPATCH_PACKET"
 
 
         #
